@@ -19,6 +19,18 @@ CHECKS = {
  "C04": ("exploration", "runtime monitor with secret-key observation: after every key-switching entry point the phase under the target key is compared with the exactly transformed plaintext against a worst-case decomposition-derived noise bound",
          "Parameter sets with 1..6 Q and 0..3 P primes of mixed sizes, both ring types, 5 secret distributions; evaluation-key parameters (LevelQ, LevelP, w in 0..30, Compressed) drawn per case; ApplyEvaluationKey, Relinearize, Automorphism, AutomorphismHoisted(Lazy), GadgetProduct, GadgetProductLazy, GadgetProductHoisted(Lazy)+ModDown on ciphertexts at levels <= key level, NTT and coefficient domain; compressed keys: Expand determinism and equality with the keyed uniform stream; missing keys must give errors. Not yet covered: ring-degree switching, standard/conjugate-invariant swap, RingPackingEvaluator.",
          "worst-case bounds are loose by design (no false alarm possible from noise); only defects that push noise towards Q_level are visible", "4/C04"),
+ "C07": ("exploration", "runtime reference-model monitor: encoders/decoders executed on boundary-heavy message vectors and compared with exact Z_t models and an independent arbitrary-precision canonical embedding",
+         "BGV: every level x batched/coefficient x IsNTT x uint64/int64 x boundary patterns x lengths x scales, exact residues, signed range, zero padding, decode under maximal admissible noise, product of encodings, Embed into ring.Poly/ringqp.Poly; CKKS: both rings, all LogDimensions, 8 precisions, 4 input and output types, Encode/Embed/Decode/DecodePublic/FFT/IFFT against an O(n^2) big-float embedding with the rounding + working-precision bound. 8 genuine defects recorded as known findings.",
+         "trusts math/big; precision losses below the stated floating-point tolerance are invisible; classes masked by known findings are listed in DESIGN.md", "4/C07"),
+ "C08": ("fault_enumeration", "runtime fault injection at the io.Reader/io.Writer boundary with byte-level and value-level oracles over a zoo of 30 serializable types",
+         "Every type x value variant: size/identity over 5 writing entry points, 12 reading entry points (UnmarshalBinary, bytes.Reader, bufio 16/17/100/4096 and buffer.Buffer with position sentinel, 1-byte/half/random-chunk transports plain and under shared bufio) x fresh and dirty receivers, mixed-type streams through shared bufio readers/writers, truncation at every offset (exhaustive <= 4 KiB), 8-byte-window and single-byte corruption at every offset (exhaustive <= 0.8 KiB quick / 6 KiB thorough) under an address-space cap, writer failure at every offset.",
+         "zoo values are built by allocation + random coefficients (content is not interpreted by the codecs); bootstrapping key bundles and scheme-level (bgv/ckks/bootstrapping) parameter literals are covered by C19 instead; corrupted encodings that decode to a different self-consistent object are accepted", "4/C08"),
+ "C12": ("exploration", "runtime monitor: homomorphic linear transformations executed on generated diagonal sets / API modes and compared slot-wise with the plaintext matrix-vector product, exact metadata, exactly-advertised Galois keys",
+         "bgv, bfv and ckks (std/CI), logN 4..10, 13 diagonal-set kinds with signed indices, BSGS ratios -1..5, independent ct / matrix / receiver levels, Evaluate/EvaluateNew/EvaluateMany/EvaluateSequential(+New), permutations via GetDiagonals; exact mod t for BGV, worst-case-budget bound for CKKS; level/scale checked exactly; evaluator holds exactly the advertised Galois keys. 2 genuine defects recorded as known findings.",
+         "EvaluateMany outputs after a BSGS matrix with giant steps are masked by known finding 2; CKKS >53-bit precision path not exercised", "4/C12"),
+ "C15": ("exploration", "runtime reference-model monitor: threshold setup and combination executed for every (t,N), subset and ordering and compared with exact Shamir/Lagrange arithmetic in R_QP; protocols re-run with t shares",
+         "All 1<=t<=N<=6; 8 public-point families (small, >2^32, near 2^64, near multiples of primes) distinct mod every prime; all aggregation orders (N<=5) in three accumulation shapes; every t-subset in every listing order (exhaustive for N<=5); sum of additive shares == ideal secret exactly; fewer than t parties refused by error; (t-1)-subsets do not interpolate the secret; CKG and key-switch protocols run by t parties decrypt correctly within worst-case noise.",
+         "public points colliding modulo a prime, duplicate points and lists longer than t are outside the property's domain and not generated", "4/C15"),
 }
 ALL = [f"C{i:02d}" for i in range(1, 21)]
 PENDING_REASON = "monitor not built yet in this session (planned in DESIGN.md section 4); nothing is claimed for it"
